@@ -154,6 +154,16 @@ def goodB (S : List Seg) : Bool :=
   S.all segShapeB && allApartB (S.flatMap (fun s => [s.on.p.x, s.cn.p.x])) &&
   allApartB (S.flatMap (fun s => [s.on.p.y, s.cn.p.y])) && noOverlapB S
 
+
+/-- decidable form of `GoodA` (Lemmas/PlanariseOverlap.lean): the hypothesis on the route segments -/
+def identB (S : List Seg) : Bool :=
+  let ends := S.flatMap (fun s => [s.on, s.cn])
+  ends.all (fun a => ends.all (fun b => (!(a.p == b.p) || a == b) && (!(a.id == b.id) || a == b)))
+
+def goodAB (S : List Seg) : Bool :=
+  S.all segShapeB && allApartB (S.flatMap (fun s => [s.on.p.x, s.cn.p.x])) &&
+  allApartB (S.flatMap (fun s => [s.on.p.y, s.cn.p.y])) && identB S
+
 /-! ### the property's clauses on a concrete result -/
 
 /-- the points the sweep is meant to report: a horizontal `h` and a vertical `v` with
